@@ -76,7 +76,7 @@ def handle : Handler
       let evals ← vec? evals; let evecs ← mat? evecs
       match spectralFit F nr ncol b nnz fb nc rw reg nm (fun _ _ _ => (evals, evecs)) with
       | .error e => some (showErr e)
-      | .ok o => some s!"ok bip={showBool o.bipartite} reg={showBool o.regularized} k={o.k} ev={showVec o.eigenvalues} evec={showMat o.eigenvectors} emb={showMat o.embedding} embcol={showOptMat o.embeddingCol}") "bad-args"
+      | .ok o => some s!"ok which={spectralWhich} bip={showBool o.bipartite} reg={showBool o.regularized} k={o.k} ev={showVec o.eigenvalues} evec={showMat o.eigenvectors} emb={showMat o.embedding} embcol={showOptMat o.embeddingCol}") "bad-args"
   | "c09.lapmv", [n, a, reg, nm, x] => some <| Option.getD (do
       let n ← n.toNat?; let a ← mat? a; let reg ← fl? reg; let nm ← bool? nm; let x ← vec? x
       some ("ok v=" ++ showVec (lapMatvec (lapInit F n a reg nm) a x))) "bad-args"
@@ -89,7 +89,8 @@ def handle : Handler
         let u : List Float := tab n (colOf evecs c)
         let mu := lapMatvec op a u
         (s!"residual[{c}]", Spec.maxAbs n (fun i => vget mu i - vget evals c * vget u i), tol * scale)
-      some (verdict checks [])) "bad-args"
+      let ortho := ("orthonormal", Spec.gramDefect n evals.length (fun _ => 1) evecs, tol * 10)
+      some (verdict (checks ++ [ortho]) [])) "bad-args"
   | "c09.spec_spectral", [n, a, regParam, rw, evals, evecs, tol] => some <| Option.getD (do
       let n ← n.toNat?; let a ← mat? a; let regParam ← fl? regParam; let rw ← bool? rw
       let evals ← vec? evals; let evecs ← mat? evecs; let tol ← fl? tol
@@ -107,7 +108,28 @@ def handle : Handler
           else (s!"trivial-pair[{c}]", absv (sumN n v), tol * (n : Float))
         else []
       let ordered := if rw then Spec.isNonincreasing evals tol else Spec.isNondecreasing evals tol
-      some (verdict (resid ++ trivial) [("order", ordered)])) "bad-args"
+      -- unit, mutually orthogonal vectors: plain for the Laplacian, in the degree-weighted product for the random walk
+      -- (there only when no node has degree 0: D^{-1/2} then loses the mass sitting on such nodes)
+      let nodeg0 := (List.range n).all fun i => !(deg i == 0)
+      let ortho := if rw then (if nodeg0 then [("D-orthonormal", Spec.gramDefect n evals.length deg evecs, tol * 10)] else [])
+        else [("orthonormal", Spec.gramDefect n evals.length (fun _ => 1) evecs, tol * 10)]
+      some (verdict (resid ++ trivial ++ ortho) [("order", ordered),
+        ("shape", evecs.length == n && evecs.all (·.length == evals.length))])) "bad-args"
+  | "c09.spec_extreme", [want, got, tol] => some <| Option.getD (do
+      let want ← vec? want; let got ← vec? got; let tol ← fl? tol
+      let scale := 1 + Spec.maxAbs want.length (vget want)
+      some (verdict [("extremal-values", Spec.maxAbs want.length (fun c => vget want c - vget got c), tol * scale)]
+        [("count", want.length == got.length)])) "bad-args"
+  | "c09.spec_orthonormal", [n, k, m, tol] => some <| Option.getD (do
+      let n ← n.toNat?; let k ← k.toNat?; let m ← mat? m; let tol ← fl? tol
+      some (verdict [("orthonormal", Spec.gramDefect n k (fun _ => 1) m, tol * 10)]
+        [("shape", m.length == n && m.all (·.length == k))])) "bad-args"
+  | "c09.spec_nonneg", [v, tol] => some <| Option.getD (do
+      let v ← vec? v; let tol ← fl? tol
+      some (verdict [] [("nonnegative", v.all fun x => !(decide (x < -tol)))])) "bad-args"
+  | "c09.rpmult", [n, k, a, reg, rw, m] => some <| Option.getD (do
+      let n ← n.toNat?; let k ← k.toNat?; let a ← mat? a; let reg ← fl? reg; let rw ← bool? rw; let m ← mat? m
+      some ("ok m=" ++ showMat (rpMultiply n k a reg rw m))) "bad-args"
   | "c09.spec_raised", [what] => some ("fails raised " ++ what)
   | "c09.spec_unit", [n, k, m, tol] => some <| Option.getD (do
       let n ← n.toNat?; let k ← k.toNat?; let m ← mat? m; let tol ← fl? tol
@@ -216,7 +238,7 @@ def handle : Handler
   | "c09.svdpost", [nr, ncol, u, s, vt] => some <| Option.getD (do
       let nr ← nr.toNat?; let ncol ← ncol.toNat?; let u ← mat? u; let s ← vec? s; let vt ← mat? vt
       let (sv, l, r) := lanczosSvdPost nr ncol u s vt
-      some s!"ok sv={showVec sv} left={showMat l} right={showMat r}") "bad-args"
+      some s!"ok which={lanczosSvdWhich} sv={showVec sv} left={showMat l} right={showMat r}") "bad-args"
   -- ---------------------------------------------------------------- RandomProjection
   | "c09.rp", [nr, ncol, b, nnz, fb, alpha, niter, rw, reg, nm, g] => some <| Option.getD (do
       let nr ← nr.toNat?; let ncol ← ncol.toNat?; let b ← mat? b; let nnz ← nnz.toNat?; let fb ← bool? fb
